@@ -318,6 +318,9 @@ class ElemEngine:
                 return top('tuple field out of range')
             if ty is not None and strip_ref(ty) in ('usize', 'i32', 'u32', 'i64', 'u64', 'bool', 'isize'):
                 return frozenset([INT])
+            if ty is not None and strip_ref(ty) in self.pdb.adts and not is_arrayish_ty(ty):
+                # a struct-valued field (e.g. an embedded sampler): keep it as a structured symbol
+                return frozenset(('fld', x, t[2]) for x in flat(bav))
             return bav
         if k == 'downcast':
             return self.ev(env, t[1])
